@@ -237,6 +237,11 @@ class SpanWrappingMatcher(wrappers.WrappingMatcher):
         self.child.skip_to(id)
         self._find_next()
 
+    def skip_to_quality(self, minquality):
+        skipped = wrappers.WrappingMatcher.skip_to_quality(self, minquality)
+        self._find_next()
+        return skipped
+
     def all_ids(self):
         while self.is_active():
             if self.spans():
